@@ -106,7 +106,7 @@ def check_restricted(inp):
     sc = _scope_key(scope_of(inp))
     try:
         # every other size class is built with equal subformulas as ONE object (req = p and q; G(req --> F req))
-        obj = fm.to_lib(t, L, share={} if fm.size(t) % 2 == 0 else None)
+        obj = fm.to_lib(t, L, raw_leaves=(fm.size(t) % 3 == 1), share={} if fm.size(t) % 2 == 0 else None)
     except Exception as e:
         raise core.HarnessError('cannot build %r in %s: %s' % (t, logic, e))
     try:
@@ -165,7 +165,7 @@ def check_lnot(inp):
     L = fm.lang(logic)
     sc = _scope_key(scope_of(inp))
     try:
-        obj = fm.to_lib(t, L, share={} if fm.size(t) % 2 == 0 else None)
+        obj = fm.to_lib(t, L, raw_leaves=(fm.size(t) % 3 == 1), share={} if fm.size(t) % 2 == 0 else None)
     except Exception as e:
         raise core.HarnessError('cannot build %r in %s: %s' % (t, logic, e))
     try:
@@ -356,7 +356,7 @@ def run(ctx):
                        'the small scope only (a difference needing a larger structure or longer lasso is out of reach)',
                        'LTL.A(g).get_equivalent_restricted_formula() is outside the domain (the restricted LTL alphabet has no quantifier)']
     ctx.scopes.append('every %dth formula of the context families (a repeated one-operator subformula inside every context of <= 2 operators); '
-                      'formulas of even size are built with equal subformulas as one shared object' % ctx.pick(97, 23))
+                      'formulas of even size are built with equal subformulas as one shared object, one size class in three with atoms and constants given as bare str / bool' % ctx.pick(97, 23))
     f = core.run_sharded(ctx, enum_shard, {'k': k, 'scope': scope, 'deep_full': ctx.thorough, 'ctx_stride': ctx.pick(97, 23),
                                            'deep_logics': ['LTL', 'CTLS'] if ctx.thorough else ['LTL']})
     if f is not None:
